@@ -2959,8 +2959,10 @@ class SEVM:
             sha3s=ex.sha3s.copy(),
             storages=ex.storages.copy(),
             balances=ex.balances.copy(),
-            known_keys=ex.known_keys,  # pass by reference, not need to copy
-            known_sigs=ex.known_sigs,  # pass by reference, not need to copy
+            # copied: the constraints that come with a new key or signature are added to the
+            # path that creates it, so a sibling path must not find it already registered
+            known_keys=ex.known_keys.copy(),
+            known_sigs=ex.known_sigs.copy(),
             #
             call_sequence=ex.call_sequence,  # pass by reference
         )
